@@ -89,11 +89,16 @@ _DEPTH = re.compile(r"The depth of the complete state graph search is (\d+)")
 _COV = re.compile(r"^<(\w+) line \d+, col \d+ to line \d+, col \d+ of module (\w+)>: (\d+):(\d+)")
 
 
-def run(module: Path, cfg: Path, *, label: str, workers: int | str = 16, simulate: str | None = None,
+DEFAULT_WORKERS = int(os.environ.get("VERIF_TLC_WORKERS", "16"))
+
+
+def run(module: Path, cfg: Path, *, label: str, workers: int | str | None = None, simulate: str | None = None,
         depth: int | None = None, dump_dot: Path | None = None, timeout: int = 900,
         env: dict | None = None, extra: list | None = None, coverage: bool = False,
         seed: int | None = None, dfs: bool = False, keep_meta: bool = False,
-        heap: str = "8g") -> TLCResult:
+        heap: str = "6g") -> TLCResult:
+    if workers is None:
+        workers = DEFAULT_WORKERS
     wd = WORK / label
     wd.mkdir(parents=True, exist_ok=True)
     meta = wd / "meta"
